@@ -15,20 +15,24 @@ VClose(a, b, dlt) == \A k \in 1..3 : Close(a[k], b[k], dlt)
 \* wrapped: the same with wrap=True, pbc
 ScaledIsInverse(e) == \A i \in 1..Len(e.pos) : Comb(e.fdet[i], e.cell) = Scale(e.det, e.pos[i])
 RoundTrip(e) == \A i \in 1..Len(e.pos) : e.back[i] = e.pos[i]
-WrapOnlyPeriodicByIntegers(e) == \A i \in 1..Len(e.pos) : \A k \in 1..3 :
-   LET diff == e.fdet[i][k] - e.wdet[i][k] IN
+WrapOnly(e, wd) == \A i \in 1..Len(e.pos) : \A k \in 1..3 :
+   LET diff == e.fdet[i][k] - wd[i][k] IN
    IF e.pbc[k] THEN /\ diff % Abs(e.det) = 0
                     \* inside the cell; the upper end is allowed because a coordinate that is mathematically an integer may be
                     \* represented just below it and then wraps to 1 - 1e-16 (the statement only asks for integer changes)
-                    /\ (IF e.det > 0 THEN 0 <= e.wdet[i][k] /\ e.wdet[i][k] <= e.det ELSE e.det <= e.wdet[i][k] /\ e.wdet[i][k] <= 0)
+                    /\ (IF e.det > 0 THEN 0 <= wd[i][k] /\ wd[i][k] <= e.det ELSE e.det <= wd[i][k] /\ wd[i][k] <= 0)
    ELSE diff = 0
+WrapOnlyPeriodicByIntegers(e) == WrapOnly(e, e.wdet)
+\* to_cartesian(wrap=True, pbc): the cartesian image of the wrapped coordinates (observed through to_scaled)
+CartesianWrapOnlyPeriodicByIntegers(e) == WrapOnly(e, e.wcdet)
 \* history: the cell object was changed in place (swap_basis) after an earlier to_scaled call on it
 ScaledAfterCellChange(e) == /\ e.det_after = Det3(e.cell_after) /\ e.hist_exact
                             /\ \A i \in 1..Len(e.pos) : Comb(e.fdet_after[i], e.cell_after) = Scale(e.det_after, e.pos[i])
 VScaled(e) == IF e.det # Det3(e.cell) THEN "HARNESS-det" ELSE IF ~e.exact THEN "ExactInRationalWorld"
               ELSE IF ~ScaledAfterCellChange(e) THEN "ToScaledAfterCellChangedInPlace"
               ELSE IF ~ScaledIsInverse(e) THEN "ToScaledInvertsToCartesian" ELSE IF ~RoundTrip(e) THEN "ToCartesianInvertsToScaled"
-              ELSE IF ~WrapOnlyPeriodicByIntegers(e) THEN "WrapOnlyPeriodicByIntegers" ELSE "ok"
+              ELSE IF ~WrapOnlyPeriodicByIntegers(e) THEN "WrapOnlyPeriodicByIntegers"
+              ELSE IF ~CartesianWrapOnlyPeriodicByIntegers(e) THEN "ToCartesianWrapOnlyPeriodicByIntegers" ELSE "ok"
 
 \* ---- ev = "minimize": get_minimized_cell(system, axis, min_size); lengths in 1e-4 A, fractions in 1e-6
 D4 == 20          \* 2e-3 A
